@@ -358,7 +358,7 @@ def coq_case(tap, ops, cfg, final, with_keys):
     fin = '(%d, %s, %s, %s)' % (err, 'None' if dq is None else '(Some %s)' % clist(dq, cz),
                                 'None' if seq is None else '(Some %d)' % seq,
                                 'None' if sidv is None else '(Some %s)' % hx(sidv))
-    c = '(mkC %s %d %d %d %d)' % (cbool(cfg[0]), cfg[1], cfg[2], tap.kexinit_len, tap.extinfo_len)
+    c = '(mkC %s %d %d %d %d false)' % (cbool(cfg[0]), cfg[1], cfg[2], tap.kexinit_len, tap.extinfo_len)
     return '(%s, %s, %s, %s)' % (c, tbl, clist(items), fin)
 
 
